@@ -113,3 +113,118 @@ contract(F + "AbstractDissimilarity._get_all_valid_alignments",
                      "C07 C02 C11", name="complete"),
                   ],
          serves={"C01", "C02", "C07", "C09", "C11"})
+
+# =========================================================================================================
+# AbstractDissimilarity._compute_alignment_disorders      (DESIGN.md A.3;  property C03 D1, C09)
+#   PD(u,i,j)   = delta_empty if slot i or slot j of unitary alignment u is empty (column 3 == -1) else d_mat(slot i, slot j)
+#   PSA(u,i,j)  = fold of PD in (i outer, j < i inner) order;   result[u] = PSA(u, n, 0) / C2,  2*C2 == n*(n-1)
+# =========================================================================================================
+contract(F + "AbstractDissimilarity._compute_alignment_disorders",
+         params={"alignment_array": NdArray("f32", 3), "d_mat": DMAT, "delta_empty": RealT()},
+         returns=NdArray("f32", 1),
+         lets={"NA": "shape(alignment_array)[0]", "na": "shape(alignment_array)[1]", "C2": "na * (na - 1) // 2"},
+         ghost_funs=[GhostFun("PSA", "Int Int Int -> Real"), GhostFun("tri", "Int -> Int")],
+         macros=[Macro("empty", ["u", "i"], "alignment_array[u][i][3] == -1"),
+                 Macro("PD", ["u", "i", "j"], "ite(empty(u, i) or empty(u, j), delta_empty, "
+                                              "d_mat(alignment_array[u][i], alignment_array[u][j]))")],
+         axioms=["forall(u, PSA(u, 0, 0) == 0)",
+                 "forall([u, i, j], implies(0 <= j and j < i and i < na, PSA(u, i, j + 1) == PSA(u, i, j) + PD(u, i, j)),"
+                 " pat=[PSA(u, i, j + 1)])",
+                 "forall([u, i], implies(0 <= i and i < na, PSA(u, i + 1, 0) == PSA(u, i, i)), pat=[PSA(u, i + 1, 0)])",
+                 "tri(0) == 0", "forall(a, implies(a >= 0, tri(a + 1) == tri(a) + a), pat=[tri(a + 1)])"],
+         lemmas=[Lemma("tri_closed", "2 * tri(a) == a * (a - 1)", binders=[("a", "Int")], hyps=["0 <= a"],
+                       method=("induction", "a", "0")),
+                 Lemma("c2n_exact", "2 * C2 == na * (na - 1) and C2 >= 1", hints=["2 * tri(na) == na * (na - 1)", "tri(na) == C2",
+                                                                                 "tri(na) == tri(na - 1) + (na - 1)",
+                                                                                 "2 * tri(na - 1) == (na - 1) * (na - 2)"])],
+         requires=["na >= 2", "shape(alignment_array)[2] == 4"],
+         ensures=[cl("len(result) == NA", name="len"),
+                  cl("2 * C2 == na * (na - 1)", "C03", name="pair-count"),
+                  cl("forall(u, 0, NA, result[u] == PSA(u, na, 0) / C2)", "C03 C09", name="mean-of-pairs")],
+         loops={
+             "L0": dict(match="for unitary_alignment_i in range(nb_alignments)",
+                        inv=["forall(u, 0, unitary_alignment_i, res[u] == PSA(u, na, 0))",
+                             "forall(u, unitary_alignment_i, NA, res[u] == 0)"]),
+             "L0.0": dict(match="for i in range(nb_annotators)",
+                          inv=["forall(u, 0, unitary_alignment_i, res[u] == PSA(u, na, 0))",
+                               "forall(u, unitary_alignment_i + 1, NA, res[u] == 0)",
+                               "res[unitary_alignment_i] == PSA(unitary_alignment_i, i, 0)"]),
+             "L0.0.0": dict(match="for j in range(i)",
+                            inv=["forall(u, 0, unitary_alignment_i, res[u] == PSA(u, na, 0))",
+                                 "forall(u, unitary_alignment_i + 1, NA, res[u] == 0)",
+                                 "res[unitary_alignment_i] == PSA(unitary_alignment_i, i, j)"]),
+         },
+         serves={"C03", "C09", "C10"})
+
+# =========================================================================================================
+# Built-in dissimilarities: compiled kernels (closures inside compile_d_mat) and unit-to-unit methods `d`   (C04, C09)
+#   POS(s1,e1,d1,s2,e2,d2) = ((|s1-s2| + |e1-e2|) / (d1+d2))^2        documented positional-sporadic formula
+#   kernel: delta captured at compile time (kappa);  method: self.delta_empty.   The class invariant kappa == delta_empty is
+#   an obligation of the constructors (tier B).
+# =========================================================================================================
+from .types import UnitT, RowT, StrT      # noqa: E402
+from pyvc.contract import RecT, OptT      # noqa: E402
+
+POS_MACROS = [Macro("POS", ["s1", "e1", "d1", "s2", "e2", "d2"],
+                    "((ite(s1 - s2 >= 0, s1 - s2, s2 - s1) + ite(e1 - e2 >= 0, e1 - e2, e2 - e1)) / (d1 + d2)) * "
+                    "((ite(s1 - s2 >= 0, s1 - s2, s2 - s1) + ite(e1 - e2 >= 0, e1 - e2, e2 - e1)) / (d1 + d2))")]
+ROW_REQ = ["len(unit1) == 4", "len(unit2) == 4"]
+
+contract(F + "PositionalSporadicDissimilarity.compile_d_mat.<locals>.d_mat",
+         params={"unit1": RowT(), "unit2": RowT()}, closure={"delta_empty": RealT()}, returns=RealT(),
+         macros=POS_MACROS,
+         requires=ROW_REQ + ["unit1[2] > 0", "unit2[2] > 0"],
+         ensures=[cl("result == POS(unit1[0], unit1[1], unit1[2], unit2[0], unit2[1], unit2[2]) * delta_empty",
+                     "C04 C09", name="formula")],
+         lemmas=[Lemma("pos_symmetric", "POS(s1, e1, d1, s2, e2, d2) == POS(s2, e2, d2, s1, e1, d1)",
+                       binders=[(x, "Real") for x in ("s1", "e1", "d1", "s2", "e2", "d2")], hyps=["d1 > 0", "d2 > 0"]),
+                 Lemma("pos_nonneg", "POS(s1, e1, d1, s2, e2, d2) >= 0",
+                       binders=[(x, "Real") for x in ("s1", "e1", "d1", "s2", "e2", "d2")], hyps=["d1 > 0", "d2 > 0"]),
+                 Lemma("pos_zero_on_identical", "POS(s1, e1, d1, s1, e1, d1) == 0",
+                       binders=[(x, "Real") for x in ("s1", "e1", "d1")], hyps=["d1 > 0"]),
+                 # C09: invariance under t -> k*t + c (k > 0): starts/ends are mapped affinely, durations scale by k
+                 Lemma("pos_affine_invariant",
+                       "POS(k * s1 + c, k * e1 + c, k * d1, k * s2 + c, k * e2 + c, k * d2) == POS(s1, e1, d1, s2, e2, d2)",
+                       binders=[(x, "Real") for x in ("s1", "e1", "d1", "s2", "e2", "d2", "k", "c")],
+                       hyps=["d1 > 0", "d2 > 0", "k > 0"])],
+         serves={"C04", "C09"})
+
+contract(F + "PositionalSporadicDissimilarity.d",
+         params={"self": RecT("PositionalSporadicDissimilarity", delta_empty=RealT()), "unit1": UnitT(), "unit2": UnitT()},
+         returns=RealT(), macros=POS_MACROS,
+         requires=["unit1.segment.end - unit1.segment.start > 1e-6", "unit2.segment.end - unit2.segment.start > 1e-6"],
+         ensures=[cl("result == POS(unit1.segment.start, unit1.segment.end, unit1.segment.end - unit1.segment.start, "
+                     "unit2.segment.start, unit2.segment.end, unit2.segment.end - unit2.segment.start) * self.delta_empty",
+                     "C04 C09 C10 C12", name="formula")],
+         serves={"C04", "C09", "C10", "C12"})
+
+contract(F + "AbsoluteCategoricalDissimilarity.compile_d_mat.<locals>.d_mat",
+         params={"unit1": RowT(), "unit2": RowT()}, closure={"delta_empty": RealT()}, returns=RealT(),
+         requires=ROW_REQ,
+         ensures=[cl("result == (0 if unit1[3] == unit2[3] else 1) * delta_empty", "C04 C09", name="formula")],
+         serves={"C04", "C09"})
+
+contract(F + "AbsoluteCategoricalDissimilarity.d",
+         params={"self": RecT("AbsoluteCategoricalDissimilarity", delta_empty=RealT()), "unit1": UnitT(), "unit2": UnitT()},
+         returns=RealT(),
+         ensures=[cl("result == (0 if unit1.annotation == unit2.annotation else 1) * self.delta_empty", "C04 C09 C12",
+                     name="formula")],
+         serves={"C04", "C09", "C12"})
+
+# precomputed: the matrix subscript must be the category index itself, for every number of categories (the statement
+# says 1..300); the narrowing cast in the kernel is modelled exactly (two's complement wrap)
+contract(F + "PrecomputedCategoricalDissimilarity.compile_d_mat.<locals>.d_mat",
+         params={"unit1": RowT(), "unit2": RowT()}, closure={"matrix": NdArray("f32", 2), "delta_empty": RealT()},
+         returns=RealT(),
+         lets={"ncat": "shape(matrix)[0]"},
+         macros=[Macro("is_index", ["x"], "toreal(int(x)) == x and 0 <= x and x < ncat")],
+         requires=ROW_REQ + ["shape(matrix)[1] == ncat", "ncat <= 32767", "is_index(unit1[3])", "is_index(unit2[3])"],
+         ensures=[cl("result == matrix[int(unit1[3])][int(unit2[3])] * delta_empty", "C04", name="formula")],
+         serves={"C04"})
+
+contract(F + "CombinedCategoricalDissimilarity.compile_d_mat.<locals>.d_mat",
+         params={"unit1": RowT(), "unit2": RowT()},
+         closure={"pos": DMAT, "cat": DMAT, "alpha": RealT(), "beta": RealT()}, returns=RealT(),
+         requires=ROW_REQ,
+         ensures=[cl("result == alpha * pos(unit1, unit2) + beta * cat(unit1, unit2)", "C04 C09", name="formula")],
+         serves={"C04", "C09"})
